@@ -401,6 +401,22 @@ def modes(ctx, fx):
                     ident = "true" if mode == "onlyData" else "false"
                     if len(ta) < 4 or ta[3] != ident:
                         det.append("%s: identity_offsets=%s on the sending side, expected %s" % (mode, ta[3] if len(ta) > 3 else "?", ident))
+            if mode == "onlyData" and len(es) == 1:
+                # dense mode sends every shared node: the count handed to extractSubset (and on to serializeMessage) must be
+                # the size of the shared-node list, (re)assigned after getBitsetAndOffsets - which leaves it untouched when
+                # the dense encoding is enforced - on every path
+                eok = R.edges_under(fn, env)
+                a = [S(x) for x in es[0].get("a", [])]
+                cnt = a[2] if len(a) > 2 else "?"
+                full = ("indices.size()", "num")
+                if cnt not in full:
+                    setc = lambda e, cnt=cnt: e.get("k") == "assign" and e.get("lp") == cnt and e.get("op") == "=" and e.get("rp") in full
+                    gbo = [p for p, e in fn.events(is_call(name="getBitsetAndOffsets"))]
+                    tgt = lambda e: e is es[0]
+                    if not gbo or fn.reaches_without(tgt, setc, starts=[fn.after(gbo[0])], edge_ok=eok):
+                        det.append("onlyData: extractSubset is given the count `%s`, which is not set to the size of the shared-node "
+                                   "list after getBitsetAndOffsets (it stays 0 when the dense encoding is enforced, and stale values "
+                                   "are sent)" % cnt)
             if names.count("serializeMessage") != 1 or names.count("getBitsetAndOffsets") != 1:
                 det.append("%s: calls %s" % (mode, names))
             elif es and not (names.index("getBitsetAndOffsets") < names.index("extractSubset") < names.index("serializeMessage")):
@@ -505,6 +521,122 @@ def structures(ctx, fx):
     ctx.floor("expanded Reduce_* sync structures", n, 15)
 
 
+def net_shape(ctx, fx):
+    ctx.rule("C18.net.send-recv-shape",
+             "syncNetSend / syncNetRecv: the asynchronous phase offset is 1 exactly for a broadcast on both sides; the update bitset is "
+             "reset only after the last send buffer was extracted; bulk-synchronous sends are flushed; the bulk-synchronous receiver "
+             "skips itself, applies what it received from the host it came from (p->first, p->second), and bumps the phase exactly "
+             "once, after the last receive; the asynchronous receiver never bumps it")
+    n = 0
+    for f in insts(fx, GS + "syncNetSend")[:120]:
+        fn = ctx.fn(f)
+        ta = fargs(f)
+        st, asy = ta[2].split("::")[-1], ta[-1]
+        det = []
+        one = [e for _, e in fn.events(lambda e: e.get("k") == "assign" and e.get("lp") == "syncTypePhase" and e.get("rp") == "1")]
+        want1 = (asy == "true" and st == "syncBroadcast")
+        if bool(one) != want1:
+            det.append("phase offset 1 %s for %s async=%s" % ("used" if one else "not used", st, asy))
+        snd = [e for _, e in fn.events(is_call(name="sendTagged"))]
+        if len(snd) != 1 or [S(x) for x in snd[0].get("a", [])][:1] != ["x"] or "syncTypePhase" not in S(snd[0]["a"][-1]):
+            det.append("sendTagged arguments %s" % [[S(x) for x in e.get("a", [])] for e in snd])
+        gsb, rb = is_call(name="getSendBuffer"), is_call(name="reset_bitset")
+        if fn.reaches_without(is_call(name="sendTagged"), gsb):
+            det.append("a buffer is sent before it was filled")
+        for p, _ in fn.events(rb):
+            h, _ = fn.search([fn.after(p)], stop=gsb)
+            if h:
+                det.append("values are extracted after the update bitset was reset")
+        fl = list(fn.events(is_call(name="flush")))
+        if (asy == "false") != bool(fl):
+            det.append("flush %s for async=%s" % ("present" if fl else "missing", asy))
+        n += 1
+        ctx.ob("C18.net.send-recv-shape", "syncNetSend", not det, "; ".join(det[:3]), fn.loc(), f.get("targs", "")[-80:], fnkey=f["key"])
+    for f in insts(fx, GS + "syncNetRecv")[:120]:
+        fn = ctx.fn(f)
+        ta = fargs(f)
+        st, asy = ta[2].split("::")[-1], ta[-1]
+        det = []
+        one = [e for _, e in fn.events(lambda e: e.get("k") == "assign" and e.get("lp") == "syncTypePhase" and e.get("rp") == "1")]
+        if bool(one) != (asy == "true" and st == "syncBroadcast"):
+            det.append("phase offset 1 %s for %s async=%s" % ("used" if one else "not used", st, asy))
+        inc = list(fn.events(is_call(name="incrementEvilPhase")))
+        rcv = is_call(name="recieveTagged")
+        app = [e for _, e in fn.events(is_call(name="syncRecvApply"))]
+        if not app or any([S(x) for x in e.get("a", [])][:2] != ["p->first", "p->second"] for e in app):
+            det.append("syncRecvApply arguments %s" % [[S(x) for x in e.get("a", [])][:2] for e in app])
+        if asy == "true":
+            if inc:
+                det.append("the asynchronous receiver bumps the phase")
+        else:
+            if len(inc) != 1:
+                det.append("phase bumped at %d sites" % len(inc))
+            else:
+                h, _ = fn.search([fn.after(inc[0][0])], stop=rcv)
+                if h:
+                    det.append("receives after the phase was bumped")
+                if fn.exit_reachable_without(is_call(name="incrementEvilPhase")):
+                    det.append("a path leaves without bumping the phase")
+            if fn.guarded_positions(rcv, lambda t: S(t) in ("(x == this->id)",), False):
+                det.append("the receiver may wait for a message from itself")
+        n += 1
+        ctx.ob("C18.net.send-recv-shape", "syncNetRecv", not det, "; ".join(det[:3]), fn.loc(), f.get("targs", "")[-80:], fnkey=f["key"])
+    ctx.floor("syncNetSend/syncNetRecv instantiations", n, 60)
+
+
+def edge_sibling(ctx, fxp):
+    ctx.rule("C18.edge.sibling-agreement",
+             "GluonEdgeSubstrate is a copy of GluonSubstrate for edge data: every member function the two class templates share "
+             "(same name and arity; template patterns, so no instantiation is needed) performs the same sequence of calls after "
+             "the renaming getEdgeData->getData, sizeEdges->size, numOwnedEdges->numMasters (callee names in order; argument lists "
+             "differ because the edge copy has no write/read locations); frozen, reasoned exceptions: sync (edges are "
+             "synchronised any->any only: sync -> sync_any_to_any -> reduce, then broadcast, unconditionally), broadcast (no on-demand "
+             "bit-vector flags), convertGIDToLID / convertLIDToGID (an extra warning)")
+    ren = {"getEdgeData": "getData", "sizeEdges": "size", "numOwnedEdges": "numMasters"}
+    exc = {("sync", 1): "any->any only", ("broadcast", 1): "no on-demand flags", ("convertGIDToLID", 2): "extra gWarn",
+           ("convertLIDToGID", 3): "extra gWarn"}
+
+    def seq(f):
+        out = []
+        for b in f.get("blocks", []):
+            for e in b["ev"]:
+                if e.get("k") == "call" and e.get("name") and not e["name"].startswith("operator"):
+                    out.append(ren.get(e["name"], e["name"]))      # names only: the edge copy drops location arguments
+        return out
+    A, B = {}, {}
+    for f in fxp.functions:
+        if f["kind"] != "pattern" or "lambda" in f["qn"]:
+            continue
+        for cls, D in (("GluonSubstrate", A), ("GluonEdgeSubstrate", B)):
+            if f["qn"].startswith("galois::graphs::%s::" % cls):
+                D.setdefault((f["name"], len(f["params"])), []).append(f)
+    common = sorted(set(A) & set(B))
+    ctx.floor("member functions shared by GluonSubstrate and GluonEdgeSubstrate", len(common), 30)
+    must = {"serializeMessage", "deserializeMessage", "syncRecvApply", "syncExtract", "extractSubset", "setSubset", "getBitsetAndOffsets",
+            "extractWrapper", "setWrapper", "reduce", "syncSend", "syncRecv"}
+    missing = must - {k[0] for k in common}
+    if missing:
+        ctx.broken("functions expected in both substrates are missing from one: %s" % sorted(missing))
+    for k in common:
+        if len(A[k]) != len(B[k]):
+            continue
+        for fa, fb in zip(sorted(A[k], key=lambda f: f["line"]), sorted(B[k], key=lambda f: f["line"])):
+            a, b = seq(fa), seq(fb)
+            if k in exc:
+                if k == ("sync", 1):
+                    names = [x for x in b if x.startswith("sync_")]
+                    ok = names == ["sync_any_to_any"]
+                    ctx.ob("C18.edge.sibling-agreement", "GluonEdgeSubstrate::sync", ok,
+                           "edge sync dispatches to %s, expected sync_any_to_any only" % names,
+                           "%s:%s" % (fb["file"], fb["line"]), "sync")
+                continue
+            da = [x for x in a if x not in b]
+            db = [x for x in b if x not in a]
+            ctx.ob("C18.edge.sibling-agreement", "%s/%d" % k, a == b,
+                   "GluonSubstrate does %s that the edge copy does not; the edge copy does %s" % (da[:4], db[:4]) if a != b else "",
+                   "%s:%s" % (fb["file"], fb["line"]), "%s/%d@%s" % (k[0], k[1], fb["line"]))
+
+
 def run(ctx):
     ctx.explanation = EXPL
     # the sync structures are macro expansions inside the applications' own *_sync.hh files
@@ -516,3 +648,6 @@ def run(ctx):
     modes(ctx, fx)
     reset_ranges(ctx, fx)
     structures(ctx, fx)
+    net_shape(ctx, fx)
+    fxp = ctx.load("drv_distgluon", patterns=True)
+    edge_sibling(ctx, fxp)
